@@ -212,8 +212,8 @@ def parse_debug(text):
         if rest:
             raise ParseError('debug pair line %r' % line)
         rows.append([tuple(int(x) if x != '' else None for x in it) for it in items])
-    # trailing empty rows come from the final newline split
-    while rows and rows[-1] == []:
+    # the final newline leaves exactly one empty string after split
+    if rows and rows[-1] == []:
         rows.pop()
     return {'rows': rows, 'head': head}
 
